@@ -66,6 +66,14 @@ def handleHistory (impl : Json) : R (List (String × Json)) := do
           ("info", Json.mkObj [("history_steps", jNat steps.length), ("cache_pairs", jNat pairs), ("bad", Json.arr (bad.extract 0 6))])]
 
 def handle (j : Json) : R (List (String × Json)) := do
+  if (fldD j "k" Json.null) == Json.str "group_refresh" then
+    -- S61: the group tag of a tour is a function of the tour; it must read the same before and after a refresh of the tour's state
+    let impl ← fld j "impl"
+    let b ← boolF impl "refused_before_refresh"
+    let a ← boolF impl "refused_after_refresh"
+    return [("model", Json.mkObj [("snaps", Json.arr #[])]),
+            ("oracle", Json.mkObj [("group_of_a_tour_survives_a_refresh_of_its_state", Json.bool (b && a))]),
+            ("info", Json.mkObj [])]
   if (fldD j "k" Json.null) == Json.str "history" then
     return (← handleHistory (← fld j "impl"))
   let m : Mat := { n := ← natF j "n", dur := ← listF asInt j "dur", dist := ← listF asInt j "dist" }
